@@ -112,7 +112,7 @@ func orthFail(name string, u *RM, n int) string {
 // OracleDirect returns "" when the output satisfies the property, else what fails.
 func OracleDirect(in *In, o *Out) string {
 	if o.Panic != "" {
-		return "panic in " + in.Kind
+		return "panic: in " + in.Kind
 	}
 	if in.M == nil || !in.M.Finite() {
 		return ""
@@ -124,7 +124,7 @@ func OracleDirect(in *In, o *Out) string {
 		if m != nil && !m.Finite() {
 			// non-finite factors: only an alarm when the input is well inside the admissible class
 			if in.Kind == "hess" || in.Kind == "bidiag" || in.Kind == "tridiag" || in.Kind == "fpd" {
-				return in.Kind + " returned non-finite entries for a finite input"
+				return "nonfinite: " + in.Kind + " returned non-finite entries for a finite input"
 			}
 			return ""
 		}
@@ -139,7 +139,7 @@ func OracleDirect(in *In, o *Out) string {
 		for i := 0; i < n; i++ {
 			for j := i + 1; j < n; j++ {
 				if L.At(i, j).Sign() != 0 {
-					return fmt.Sprintf("L is not lower triangular: L[%d,%d] = %s", i, j, fl(L.At(i, j)))
+					return fmt.Sprintf("chol-structure: L is not lower triangular: L[%d,%d] = %s", i, j, fl(L.At(i, j)))
 				}
 			}
 		}
@@ -150,15 +150,15 @@ func OracleDirect(in *In, o *Out) string {
 			D := toRM(o.Ms[1])
 			for i := 0; i < n; i++ {
 				if L.At(i, i).Cmp(big.NewRat(1, 1)) != 0 {
-					return "L is not unit lower triangular"
+					return "chol-structure: L is not unit lower triangular"
 				}
 				for j := 0; j < n; j++ {
 					if i != j && D.At(i, j).Sign() != 0 {
-						return "D is not diagonal"
+						return "chol-structure: D is not diagonal"
 					}
 				}
 				if D.At(i, i).Sign() <= 0 {
-					return fmt.Sprintf("D[%d,%d] = %s is not positive", i, i, fl(D.At(i, i)))
+					return fmt.Sprintf("chol-structure: D[%d,%d] = %s is not positive", i, i, fl(D.At(i, i)))
 				}
 			}
 			P = L.Mul(D).Mul(L.T())
@@ -169,12 +169,12 @@ func OracleDirect(in *In, o *Out) string {
 				for j := 0; j < i; j++ {
 					d := new(big.Rat).Sub(P.At(i, j), A.At(i, j))
 					if d.Abs(d).Cmp(t) > 0 {
-						return fmt.Sprintf("forcePD: (L D L^T)[%d,%d] differs from A by %s", i, j, fl(d))
+						return fmt.Sprintf("fpd-reconstruct: (L D L^T)[%d,%d] differs from A by %s", i, j, fl(d))
 					}
 				}
 				d := new(big.Rat).Sub(A.At(i, i), P.At(i, i))
 				if d.Cmp(t) > 0 {
-					return fmt.Sprintf("forcePD: (L D L^T)[%d,%d] is smaller than A's by %s", i, i, fl(d))
+					return fmt.Sprintf("fpd-reconstruct: (L D L^T)[%d,%d] is smaller than A's by %s", i, i, fl(d))
 				}
 			}
 			return ""
@@ -182,7 +182,7 @@ func OracleDirect(in *In, o *Out) string {
 		// only the lower triangle of A is read: compare with its symmetric completion
 		As := toRM(symmetrize(in.M))
 		if d := maxDiff(P, As); d.Cmp(tol) > 0 {
-			return fmt.Sprintf("%s: factors do not reproduce A: max residual %s (tolerance %s)", in.Kind, fl(d), fl(tol))
+			return fmt.Sprintf("chol-reconstruct: %s factors do not reproduce A: max residual %s (tolerance %s)", in.Kind, fl(d), fl(tol))
 		}
 	case "gs":
 		Q, R := toRM(o.Ms[0]), toRM(o.Ms[1])
@@ -190,13 +190,13 @@ func OracleDirect(in *In, o *Out) string {
 		for i := 0; i < R.R; i++ {
 			for j := 0; j < R.C && j < i; j++ {
 				if R.At(i, j).Sign() != 0 {
-					return fmt.Sprintf("R is not upper triangular: R[%d,%d] = %s", i, j, fl(R.At(i, j)))
+					return fmt.Sprintf("gs-R-not-upper: R[%d,%d] = %s", i, j, fl(R.At(i, j)))
 				}
 			}
 		}
 		Rt := &RM{R: m, C: m, V: R.V[:m*m]}
 		if d := maxDiff(Q.Mul(Rt), A); d.Cmp(tol) > 0 {
-			return fmt.Sprintf("gramSchmidt: Q R differs from A by %s", fl(d))
+			return fmt.Sprintf("gs-reconstruct: Q R differs from A by %s", fl(d))
 		}
 	case "hess", "tridiag":
 		H := toRM(o.Ms[0])
@@ -208,7 +208,7 @@ func OracleDirect(in *In, o *Out) string {
 			for i := 0; i < n; i++ {
 				for j := 0; j < n; j++ {
 					if (i > j+lo || j > i+hi) && H.At(i, j).Sign() != 0 {
-						return fmt.Sprintf("%s: middle factor is not banded at [%d,%d]", in.Kind, i, j)
+						return fmt.Sprintf("%s-structure: middle factor is not banded at [%d,%d]", in.Kind, i, j)
 					}
 				}
 			}
@@ -216,10 +216,10 @@ func OracleDirect(in *In, o *Out) string {
 		if o.Ms[1] != nil {
 			U := toRM(o.Ms[1])
 			if f := orthFail("U", U, n); f != "" {
-				return in.Kind + ": " + f
+				return in.Kind + "-orth: " + f
 			}
 			if d := maxDiff(U.Mul(H).Mul(U.T()), A); d.Cmp(tol) > 0 {
-				return fmt.Sprintf("%s: U H U^T differs from A by %s (tolerance %s)", in.Kind, fl(d), fl(tol))
+				return fmt.Sprintf("%s-reconstruct: U H U^T differs from A by %s (tolerance %s)", in.Kind, fl(d), fl(tol))
 			}
 		}
 	case "bidiag":
@@ -228,23 +228,27 @@ func OracleDirect(in *In, o *Out) string {
 		for i := 0; i < m; i++ {
 			for j := 0; j < nn; j++ {
 				if (i > j || j > i+1) && new(big.Rat).Abs(Bm.At(i, j)).Cmp(tolOf(A, m, eps40)) > 0 {
-					return fmt.Sprintf("bidiag: B[%d,%d] = %s is outside the band", i, j, fl(Bm.At(i, j)))
+					return fmt.Sprintf("bidiag-structure: B[%d,%d] = %s is outside the band", i, j, fl(Bm.At(i, j)))
 				}
 			}
 		}
 		if o.Ms[1] != nil {
 			if f := orthFail("U", toRM(o.Ms[1]), m); f != "" {
-				return "bidiag: " + f
+				return "bidiag-orth: " + f
 			}
 		}
 		if o.Ms[2] != nil {
 			if f := orthFail("V", toRM(o.Ms[2]), nn); f != "" {
-				return "bidiag: " + f
+				return "bidiag-orth: " + f
 			}
 		}
 		if o.Ms[1] != nil && o.Ms[2] != nil {
-			if d := maxDiff(toRM(o.Ms[1]).Mul(Bm).Mul(toRM(o.Ms[2])), A); d.Cmp(tolOf(A, m, eps40)) > 0 {
-				return fmt.Sprintf("bidiag: U B V differs from A by %s", fl(d))
+			// documented (householderBidiagonalization_test.go): U^T A V = B, i.e. A = U B V^T
+			if d := maxDiff(toRM(o.Ms[1]).Mul(Bm).Mul(toRM(o.Ms[2]).T()), A); d.Cmp(tolOf(A, m, eps40)) > 0 {
+				if d2 := maxDiff(toRM(o.Ms[1]).Mul(Bm).Mul(toRM(o.Ms[2])), A); d2.Cmp(tolOf(A, m, eps40)) <= 0 {
+					return fmt.Sprintf("bidiag-V-convention: A = U B V holds but the documented A = U B V^T fails by %s", fl(d))
+				}
+				return fmt.Sprintf("bidiag-reconstruct: U B V^T differs from A by %s", fl(d))
 			}
 		}
 	}
@@ -254,7 +258,7 @@ func OracleDirect(in *In, o *Out) string {
 
 func OracleIter(in *IterIn, o *IterOut) string {
 	if o.Timeout {
-		return "did not return within the deadline"
+		return "timeout: did not return within the deadline"
 	}
 	if o.Panic != "" {
 		return "panic: " + o.Panic
@@ -263,7 +267,7 @@ func OracleIter(in *IterIn, o *IterOut) string {
 		return ""
 	}
 	if !finiteAll(o.Ms, o.Vs) {
-		return in.Kind + " returned non-finite entries"
+		return nonfiniteClass(in, o)
 	}
 	A := toRM(in.M)
 	n := in.M.R
@@ -274,32 +278,32 @@ func OracleIter(in *IterIn, o *IterOut) string {
 		for i := 0; i < n; i++ {
 			for j := 0; j+1 < i; j++ {
 				if new(big.Rat).Abs(H.At(i, j)).Cmp(tol) > 0 {
-					return fmt.Sprintf("qr: H[%d,%d] = %s below the first subdiagonal", i, j, fl(H.At(i, j)))
+					return fmt.Sprintf("qr-structure: H[%d,%d] = %s below the first subdiagonal", i, j, fl(H.At(i, j)))
 				}
 			}
 		}
 		for i := 0; i+1 < n; i++ {
-			if H.At(i+1, i).Sign() == 0 {
+			if new(big.Rat).Abs(H.At(i+1, i)).Cmp(tol) <= 0 {
 				continue
 			}
-			if i+2 < n && H.At(i+2, i+1).Sign() != 0 {
-				return fmt.Sprintf("qr: consecutive non-zero subdiagonal entries at %d", i)
+			if i+2 < n && new(big.Rat).Abs(H.At(i+2, i+1)).Cmp(tol) > 0 {
+				return fmt.Sprintf("qr-structure: consecutive non-zero subdiagonal entries at %d", i)
 			}
 			d := new(big.Rat).Sub(H.At(i, i), H.At(i+1, i+1))
 			disc := new(big.Rat).Mul(d, d)
 			t := new(big.Rat).Mul(H.At(i, i+1), H.At(i+1, i))
 			disc.Add(disc, t.Mul(t, big.NewRat(4, 1)))
 			if disc.Sign() >= 0 {
-				return fmt.Sprintf("qr: 2x2 block at %d with real eigenvalues was not reduced", i)
+				return fmt.Sprintf("qr-structure: 2x2 block at %d with real eigenvalues was not reduced", i)
 			}
 		}
 		if o.Ms[1] != nil {
 			U := toRM(o.Ms[1])
 			if f := orthFail("U", U, n); f != "" {
-				return "qr: " + f
+				return "qr-orth: " + f
 			}
 			if d := maxDiff(U.Mul(H).Mul(U.T()), A); d.Cmp(tol) > 0 {
-				return fmt.Sprintf("qr: U H U^T differs from A by %s (tolerance %s)", fl(d), fl(tol))
+				return fmt.Sprintf("qr-reconstruct: U H U^T differs from A by %s (tolerance %s)", fl(d), fl(tol))
 			}
 		}
 	case "svd":
@@ -309,26 +313,26 @@ func OracleIter(in *IterIn, o *IterOut) string {
 		for i := 0; i < m; i++ {
 			for j := 0; j < nn; j++ {
 				if i == j && S.At(i, j).Sign() < 0 {
-					return fmt.Sprintf("svd: negative singular value S[%d] = %s", i, fl(S.At(i, j)))
+					return fmt.Sprintf("svd-negative: singular value S[%d] = %s", i, fl(S.At(i, j)))
 				}
 				if i != j && new(big.Rat).Abs(S.At(i, j)).Cmp(t) > 0 {
-					return fmt.Sprintf("svd: S[%d,%d] = %s is off the diagonal", i, j, fl(S.At(i, j)))
+					return fmt.Sprintf("svd-structure: S[%d,%d] = %s is off the diagonal", i, j, fl(S.At(i, j)))
 				}
 			}
 		}
 		if o.Ms[1] != nil {
 			if f := orthFail("U", toRM(o.Ms[1]), m); f != "" {
-				return "svd: " + f
+				return "svd-orth: " + f
 			}
 		}
 		if o.Ms[2] != nil {
 			if f := orthFail("V", toRM(o.Ms[2]), nn); f != "" {
-				return "svd: " + f
+				return "svd-orth: " + f
 			}
 		}
 		if o.Ms[1] != nil && o.Ms[2] != nil {
 			if d := maxDiff(toRM(o.Ms[1]).Mul(S).Mul(toRM(o.Ms[2]).T()), A); d.Cmp(t) > 0 {
-				return fmt.Sprintf("svd: U S V^T differs from A by %s (tolerance %s)", fl(d), fl(t))
+				return fmt.Sprintf("svd-reconstruct: U S V^T differs from A by %s (tolerance %s)", fl(d), fl(t))
 			}
 		}
 	case "eig":
@@ -342,7 +346,7 @@ func OracleIter(in *IterIn, o *IterOut) string {
 				b = -b
 			}
 			if b > a {
-				return fmt.Sprintf("eig: eigenvalues not sorted by decreasing magnitude at %d", i)
+				return fmt.Sprintf("eig-unsorted: eigenvalues not sorted by decreasing magnitude at %d", i)
 			}
 		}
 		if o.Ms[0] != nil && in.RealSpectrum {
@@ -356,25 +360,28 @@ func OracleIter(in *IterIn, o *IterOut) string {
 					d := new(big.Rat).Mul(lam, V.At(i, j))
 					d.Sub(AV.At(i, j), d)
 					if d.Abs(d).Cmp(t) > 0 {
-						return fmt.Sprintf("eig: A v - lambda v = %s for eigenpair %d (lambda = %g)", fl(d), j, vals[j])
+						if alignedUpToPermutation(A, V, vals, t) {
+							return fmt.Sprintf("eig-misaligned: eigenvector column %d does not belong to eigenvalue %d (lambda = %g); every eigenvalue has its eigenvector in SOME column", j, j, vals[j])
+						}
+						return fmt.Sprintf("eig-residual: A v - lambda v = %s for eigenpair %d (lambda = %g)", fl(d), j, vals[j])
 					}
 					nrm.Add(nrm, new(big.Rat).Mul(V.At(i, j), V.At(i, j)))
 				}
 				nrm.Sub(nrm, big.NewRat(1, 1))
 				if nrm.Abs(nrm).Cmp(tolOne(n, eps40)) > 0 {
-					return fmt.Sprintf("eig: eigenvector %d is not normalised", j)
+					return fmt.Sprintf("eig-normalise: eigenvector %d is not normalised", j)
 				}
 			}
 		}
 	case "msqrt":
 		X := toRM(o.Ms[0])
 		if d := maxDiff(X.Mul(X), A); d.Cmp(tolOf(A, n, eps24)) > 0 {
-			return fmt.Sprintf("msqrt: X X differs from A by %s", fl(d))
+			return fmt.Sprintf("msqrt-reconstruct: X X differs from A by %s", fl(d))
 		}
 	case "msqrtinv":
 		X := toRM(o.Ms[0])
 		if d := maxDiff(X.Mul(A).Mul(X), rIdent(n)); d.Cmp(tolOne(n, eps24)) > 0 {
-			return fmt.Sprintf("msqrtInv: X A X differs from I by %s", fl(d))
+			return fmt.Sprintf("msqrtinv-reconstruct: X A X differs from I by %s", fl(d))
 		}
 	}
 	return ""
@@ -432,7 +439,7 @@ func failDirect(in *In) string {
 }
 func shrinkDirect(in *In) (*In, string) {
 	f := failDirect(in)
-	for changed := true; changed && in.M != nil; {
+	for changed := f != ""; changed && in.M != nil; {
 		changed = false
 		sq := in.M.R == in.M.C && in.Kind != "gs" && in.Kind != "bidiag"
 		for k := in.M.R - 1; k >= 0 && in.M.R > 1; k-- {
@@ -441,7 +448,7 @@ func shrinkDirect(in *In) (*In, string) {
 			}
 			c := *in
 			c.M = dropRC(in.M, k, sq).Pack()
-			if g := failDirect(&c); g != "" {
+			if g := failDirect(&c); g != "" && classOf(g) == classOf(f) {
 				in, f, changed = &c, g, true
 				break
 			}
@@ -457,7 +464,7 @@ func shrinkDirect(in *In) (*In, string) {
 				c.M = in.M.Clone()
 				c.M.V[i] = y
 				c.M.Pack()
-				if g := failDirect(&c); g != "" {
+				if g := failDirect(&c); g != "" && classOf(g) == classOf(f) {
 					in, f, changed = &c, g, true
 					break
 				}
@@ -469,7 +476,7 @@ func shrinkDirect(in *In) (*In, string) {
 func failIter(in *IterIn) string { return OracleIter(in, RunIter(in)) }
 func shrinkIter(in *IterIn) (*IterIn, string) {
 	f := failIter(in)
-	for changed := true; changed && hung < 40; {
+	for changed := f != "" && classOf(f) != "timeout"; changed && hung < 40; {
 		changed = false
 		sq := in.Kind != "svd"
 		for k := in.M.R - 1; k >= 0 && in.M.R > 1; k-- {
@@ -478,7 +485,7 @@ func shrinkIter(in *IterIn) (*IterIn, string) {
 			}
 			c := *in
 			c.M = dropRC(in.M, k, sq).Pack()
-			if g := failIter(&c); g != "" {
+			if g := failIter(&c); g != "" && classOf(g) == classOf(f) && classOf(g) != "timeout" {
 				in, f, changed = &c, g, true
 				break
 			}
@@ -488,6 +495,10 @@ func shrinkIter(in *IterIn) (*IterIn, string) {
 }
 
 type HuntResult struct {
+	Class   string  `json:"class"`
+	Orig    interface{} `json:"orig,omitempty"`
+	Idx     int     `json:"idx"`      // index in the handed-over list (-1: fresh input)
+	IsIter  bool    `json:"is_iter"`
 	Found   bool    `json:"found"`
 	Failure string  `json:"failure,omitempty"`
 	Site    string  `json:"site,omitempty"`
@@ -499,7 +510,7 @@ type HuntResult struct {
 // huntMain: first the inputs handed over by the driver (mismatching cases), then fresh ones.
 // All failures are collected (the driver separates known findings from violations).
 func huntMain(o Opts) {
-	var res []HuntResult
+	var res, handed []HuntResult
 	tried := 0
 	seen := map[string]bool{}
 	add := func(h HuntResult) {
@@ -511,6 +522,7 @@ func huntMain(o Opts) {
 			return
 		}
 		seen[k] = true
+		h.Class = classOf(h.Failure)
 		res = append(res, h)
 	}
 	if o.Replay != "" {
@@ -520,20 +532,26 @@ func huntMain(o Opts) {
 				Iter   []*IterIn `json:"iter"`
 			}
 			json.Unmarshal(b, &hin)
-			for _, d := range hin.Direct {
+			for i, d := range hin.Direct {
 				d.M.Unpack()
 				tried++
 				if f := failDirect(d); f != "" {
+					o := *d
 					s, f2 := shrinkDirect(d)
-					add(HuntResult{Found: true, Failure: f2, Site: s.Kind, Direct: s})
+					handed = append(handed, HuntResult{Found: true, Class: classOf(f2), Failure: f2, Site: s.Kind, Direct: s, Orig: &o, Idx: i})
+				} else {
+					handed = append(handed, HuntResult{Found: false, Site: d.Kind, Direct: d, Idx: i})
 				}
 			}
-			for _, d := range hin.Iter {
+			for i, d := range hin.Iter {
 				d.M.Unpack()
 				tried++
 				if f := failIter(d); f != "" {
+					o := *d
 					s, f2 := shrinkIter(d)
-					add(HuntResult{Found: true, Failure: f2, Site: s.Kind, Iter: s})
+					handed = append(handed, HuntResult{Found: true, Class: classOf(f2), Failure: f2, Site: s.Kind, Iter: s, Orig: &o, Idx: i, IsIter: true})
+				} else {
+					handed = append(handed, HuntResult{Found: false, Site: d.Kind, Iter: d, Idx: i, IsIter: true})
 				}
 			}
 		}
@@ -549,18 +567,64 @@ func huntMain(o Opts) {
 			}
 			if f := failDirect(d); f != "" {
 				s, f2 := shrinkDirect(d)
-				add(HuntResult{Found: true, Failure: f2, Site: s.Kind, Direct: s})
+				add(HuntResult{Found: true, Failure: f2, Site: s.Kind, Direct: s, Idx: -1})
 			}
 		} else {
 			d := GenIter(r, 8)
 			if f := failIter(d); f != "" {
 				s, f2 := shrinkIter(d)
-				add(HuntResult{Found: true, Failure: f2, Site: s.Kind, Iter: s})
+				add(HuntResult{Found: true, Failure: f2, Site: s.Kind, Iter: s, Idx: -1, IsIter: true})
 			}
 		}
 	}
-	out := map[string]interface{}{"found": len(res) > 0, "results": res, "tried": tried, "hung": hung}
+	out := map[string]interface{}{"found": len(res) > 0, "results": res, "handed": handed, "tried": tried, "hung": hung}
 	b, _ := json.MarshalIndent(out, "", " ")
 	os.WriteFile(filepath.Join(o.Out, "hunt.json"), b, 0644)
 	os.Exit(0)
+}
+
+// every eigenvalue has an eigenvector among the columns of V (in some other column)
+func alignedUpToPermutation(A, V *RM, vals []float64, t *big.Rat) bool {
+	n := A.R
+	AV := A.Mul(V)
+	for j := 0; j < n; j++ {
+		lam := ratOf(vals[j])
+		found := false
+		for k := 0; k < n && !found; k++ {
+			ok := true
+			for i := 0; i < n && ok; i++ {
+				d := new(big.Rat).Mul(lam, V.At(i, k))
+				d.Sub(AV.At(i, k), d)
+				ok = d.Abs(d).Cmp(t) <= 0
+			}
+			found = ok
+		}
+		if !found {
+			return false
+		}
+	}
+	return true
+}
+
+func nonfiniteClass(in *IterIn, o *IterOut) string {
+	if in.Kind == "eig" && len(o.Vs) > 0 {
+		v := o.Vs[0]
+		for i := range v {
+			for j := i + 1; j < len(v); j++ {
+				if math.Abs(v[i]-v[j]) <= 1e-7*(math.Abs(v[i])+math.Abs(v[j])) || v[i] == v[j] {
+					return fmt.Sprintf("eig-nonfinite-repeated: eigenvectors contain NaN/Inf; eigenvalues %d and %d coincide (%g)", i, j, v[i])
+				}
+			}
+		}
+	}
+	return "nonfinite: " + in.Kind + " returned non-finite entries"
+}
+
+func classOf(f string) string {
+	for i := 0; i < len(f); i++ {
+		if f[i] == ':' {
+			return f[:i]
+		}
+	}
+	return f
 }
